@@ -428,6 +428,41 @@ def World.putElem (w : World) (sid : Nat) (d : Dim) (ph : Option Char) (i : Nat)
          .ok ((w1.addEntries v es).setElem r i (x / w1.usedV v k i (vAt V k i)), some v.vid))
     | .other => .error .dimension
 
+def World.setRow (w : World) (r : Nat) (xs : List Rat) : World :=
+  { w with c := { w.c with rows := upd w.c.rows r xs } }
+
+def divVec (a b : List Rat) : List Rat := List.zipWith (· / ·) a b
+
+/-- Whole-row assignment through a view: `s.mass = values`, `s.vol = other.vol`, `ivol.data.copy_like(other.vol)`,
+`imass[phase] = values` (`values` = the dense image of what is assigned, an ndarray or another stream's view).  The
+view's dict is cleared and every non-zero value goes through `input`: `mol_i = x_i / MW_i`, resp.
+`x_i / (1000·V_i)` at the *receiver's* phase, T and P. -/
+def World.putRow (w : World) (sid : Nat) (d : Dim) (ph : Option Char) (xs : List Rat) (V : List (List Rat)) :
+    Except Err (World × Option Nat) :=
+  match w.rowPos sid ph with
+  | .error e => .error e
+  | .ok k =>
+    if xs.length ≠ (w.MW (w.stream sid).th).length then .error .shape else
+    match d with
+    | .mol =>
+      (match (w.rowsOf sid)[k]? with
+       | none => .error .badKey
+       | some r => .ok (w.setRow r xs, none))
+    | .mass =>
+      let (w1, v) := w.massView sid
+      (match v.rows[k]? with
+       | none => .error .badKey
+       | some r => .ok (w1.setRow r (divVec xs (w1.MW v.th)), some v.vid))
+    | .vol =>
+      let (w1, v) := w.volView sid
+      (match v.rows[k]? with
+       | none => .error .badKey
+       | some r =>
+         let es := xs.zipIdx.flatMap (fun (x, i) => if x = 0 then [] else w1.newEntry v k i (vAt V k i))
+         let row := xs.zipIdx.map (fun (x, i) => x / w1.usedV v k i (vAt V k i))
+         .ok ((w1.addEntries v es).setRow r row, some v.vid))
+    | .other => .error .dimension
+
 /-! ### units of measure -/
 
 def findUnit (l : List UnitDef) (u : String) : Option UnitDef := l.find? (fun d => d.name == u)
@@ -724,6 +759,7 @@ inductive Op where
   | writeF (s : Nat) (d : Dim) (x : Rat) (V : Mat)
   | get (s : Nat) (d : Dim) (ph : Option Char) (i : Nat) (V : Mat)
   | put (s : Nat) (d : Dim) (ph : Option Char) (i : Nat) (x : Rat) (V : Mat)
+  | putRow (s : Nat) (d : Dim) (ph : Option Char) (xs : List Rat) (V : Mat)
   | getFlow (s : Nat) (u : String) (ph : Option Char) (i : Nat) (V : Mat)
   | setFlow (s : Nat) (u : String) (ph : Option Char) (i : Nat) (x : Rat) (V : Mat)
   | getTotal (s : Nat) (u : String) (V : Mat)
@@ -743,7 +779,7 @@ def Op.sids : Op → List Nat
   | .setT s _ | .setP s _ | .setPhase s _ _ | .setPhases s _ _ | .unlink s | .thermo s _ _
   | .sync s _ _ _ _ | .mixInto s _ _ _
   | .readMol s | .readMass s | .readVol s _ | .readF s _ _ | .writeF s _ _ _ | .get s _ _ _ _
-  | .put s _ _ _ _ _ | .getFlow s _ _ _ _ | .setFlow s _ _ _ _ _ | .getTotal s _ _ | .setTotal s _ _ _ => [s]
+  | .put s _ _ _ _ _ | .putRow s _ _ _ _ | .getFlow s _ _ _ _ | .setFlow s _ _ _ _ _ | .getTotal s _ _ | .setTotal s _ _ _ => [s]
   | .link s o _ _ _ | .copyLike s o _ => [s, o]
 
 def okShape (w : World) (sid : Nat) : Except Err (World × Out) :=
@@ -782,6 +818,7 @@ def World.exec (w : World) (op : Op) : Except Err (World × Out) :=
   | .writeF s d x V => (w.setF s d x V).map (·, .unit)
   | .get s d ph i V => (w.getElem s d ph i V).map (fun (w1, vid, x) => (w1, .num vid x))
   | .put s d ph i x V => (w.putElem s d ph i x V).map (fun (w1, vid) => (w1, .wrote vid))
+  | .putRow s d ph xs V => (w.putRow s d ph xs V).map (fun (w1, vid) => (w1, .wrote vid))
   | .getFlow s u ph i V => (w.getFlow s u ph i V).map (fun (w1, vid, x) => (w1, .num vid x))
   | .setFlow s u ph i x V => (w.setFlow s u ph i x V).map (fun (w1, vid) => (w1, .wrote vid))
   | .getTotal s u V => (w.getTotal s u V).map (fun x => (w, .num none x))
